@@ -10,6 +10,7 @@ import os
 import shutil
 import subprocess
 import sys
+import threading
 
 from . import ir
 
@@ -27,21 +28,29 @@ BASE_FLAGS = ["-std=gnu11", "-UNDEBUG", "-O0", "-Xclang", "-disable-O0-optnone",
               "-fno-discard-value-names", "-Wno-everything"]
 
 _workdir = None
+_lock = threading.Lock()
 
 
 def workdir():
     global _workdir
-    if _workdir is None:
-        base = os.path.join(VERIF, "build", "work")
-        os.makedirs(base, exist_ok=True)
-        _workdir = os.path.join(base, "w%d" % os.getpid())
-        shutil.rmtree(_workdir, ignore_errors=True)
-        os.makedirs(_workdir)
-        atexit.register(lambda: shutil.rmtree(_workdir, ignore_errors=True))
+    with _lock:
+        if _workdir is None:
+            base = os.path.join(VERIF, "build", "work")
+            os.makedirs(base, exist_ok=True)
+            wd = os.path.join(base, "w%d" % os.getpid())
+            shutil.rmtree(wd, ignore_errors=True)
+            os.makedirs(wd, exist_ok=True)
+            atexit.register(lambda: shutil.rmtree(wd, ignore_errors=True))
+            _workdir = wd
     return _workdir
 
 
 def ensure_tool():
+    with _lock:
+        _ensure_tool()
+
+
+def _ensure_tool():
     src = os.path.join(VERIF, "sa", "ir2json.cc")
     if os.path.exists(IR2JSON) and os.path.getmtime(IR2JSON) >= os.path.getmtime(src):
         return
